@@ -311,6 +311,10 @@ func ctxView(c erpc.CallCtx) string {
 		st = fmt.Sprintf("%d", s.Code())
 	}
 	_, sw := c.Swap().Load("stale")
+	_, hasDl := c.Context().Deadline()
+	if hasDl || c.Context().Value(ctxKey{}) != nil || c.Context().Err() != nil {
+		metas = append(metas, fmt.Sprintf("stale-context(deadline=%v value=%v err=%v)", hasDl, c.Context().Value(ctxKey{}), c.Context().Err()))
+	}
 	return fmt.Sprintf("meta=%v swapleft=%v swaplen=%d outmeta=%q outcodec=%d outpipe=%d outstatus=%s outbodynil=%v inpipe=%d codec=%c",
 		metas, sw, c.Swap().Len(), out.Meta().QueryString(), out.BodyCodec(), out.XferPipe().Len(), st, out.Body() == nil, c.Input().XferPipe().Len(), c.GetBodyCodec())
 }
@@ -368,6 +372,7 @@ func (d *dataRun) ctxCase(feats []string, next string, out map[string]interface{
 		cli := erpc.NewPeer(erpc.PeerConfig{})
 		srv.RouteCall(new(CX))
 		srv.RoutePush(new(CXP))
+		cli.RouteCall(new(CX))
 		defer func() {
 			done := make(chan struct{})
 			go func() { cli.Close(); srv.Close(); close(done) }()
@@ -377,7 +382,7 @@ func (d *dataRun) ctxCase(feats []string, next string, out map[string]interface{
 			}
 		}()
 		n := d.rnd.Int31()
-		cs, _, _, _ := connectPeers(cli, srv, fmt.Sprintf("XC%d", n), fmt.Sprintf("XS%d", n))
+		cs, ss, _, _ := connectPeers(cli, srv, fmt.Sprintf("XC%d", n), fmt.Sprintf("XS%d", n))
 		cprobe.mu.Lock()
 		cprobe.feat, cprobe.obs2 = f, ""
 		cprobe.mu.Unlock()
@@ -392,7 +397,27 @@ func (d *dataRun) ctxCase(feats []string, next string, out map[string]interface{
 			if f["codec"] {
 				st = append(st, erpc.WithBodyCodec('x'))
 			}
+			setAge := func(dur time.Duration) {
+				if x, ok := ss.(interface{ SetContextAge(time.Duration) }); ok {
+					x.SetContextAge(dur)
+				}
+			}
+			if f["ctxage"] {
+				setAge(time.Hour)
+			}
 			cs.Call("/cx/one", &Arg{Tag: "one"}, new(Res), st...)
+			if f["ctxage"] {
+				setAge(0)
+			}
+			if f["callctx"] {
+				// the server calls the client with a context of its own: a pooled context of the process handles the reply
+				cctx, cancel := context.WithCancel(context.WithValue(context.Background(), ctxKey{}, "stale-ctx"))
+				ss.Call("/cx/two", &Arg{Tag: "rev"}, new(Res), erpc.WithContext(cctx))
+				cancel()
+				cprobe.mu.Lock()
+				cprobe.obs2 = ""
+				cprobe.mu.Unlock()
+			}
 		}
 		reply := ""
 		if next == "call" {
